@@ -7,7 +7,7 @@ from concurrent.futures import ThreadPoolExecutor
 import common
 import impl_next
 import rulesets
-from props.C04 import collect
+from props.C04 import collect, independent_product
 
 ID = "C17"
 TRUSTED = ["argparse, the OS pipe, codecs file writing", "in-process reference stream = real PcfgQueue over the Prince folder + create_guesses"]
@@ -15,7 +15,7 @@ ASSUMES = ["N >= 1"]
 
 
 def run(ctx):
-    nrs = ctx.scale(10, 60)
+    nrs = ctx.scale(24, 120)
     sc = common.scratch()
     code = common.copy_code_tree(common.scratch())
     env = common.subenv()
@@ -32,6 +32,14 @@ def run(ctx):
             rs["files"]["C3"] = [("LLL", 0.3), ("ULL", 0.3), ("UUU", 0.3), ("LLU", 0.1)]
             rs["files"]["D2"] = [("12", 0.25), ("99", 0.25), ("07", 0.25), ("00", 0.25)]
             rs["prince"] = [("A3", 0.5), ("D2", 0.3)] + [x for x in rs["prince"] if x[0] not in ("A3", "D2")][:2]
+        if r % 3 == 2:
+            # non-dyadic two-point lists: parents of a node tie exactly or differ by one ulp depending on how the
+            # product is computed (0.6*0.4 vs 0.4*0.6 under different base probabilities)
+            rs["files"]["A5"] = [("lemon", 0.6), ("grape", 0.4)]
+            rs["files"]["C5"] = [("LLLLL", 0.6), ("ULLLL", 0.4)]
+            others = [x for x in rs["prince"] if x[0] not in ("A5",)][:2]
+            b = ctx.rng.choice([5 / 8, 5 / 9, 0.7, 1 / 3])
+            rs["prince"] = sorted([("A5", b)] + [(k, (1 - b) / max(1, len(others))) for k, _ in others], key=lambda x: -x[1])
         name = "P%d" % r
         rs["name"] = name
         lower = ctx.rng.random() < 0.4
@@ -39,12 +47,29 @@ def run(ctx):
             g = impl_next.load_grammar(rs, sc, False, lower, "Prince")
         except Exception:
             continue
-        items, _, capped, _ = impl_next.full_stream(g, cap=500, check_heap=False)
+        try:
+            items, _, capped, _ = impl_next.full_stream(g, cap=500, check_heap=False)
+        except Exception as e:
+            vio.append({"sig": "C17:raised:%s" % type(e).__name__, "what": "the queue over the Prince grammar raised %s: %s" % (type(e).__name__, e),
+                        "replay": {"ruleset": rs, "all_lower": lower, "n": None, "file": False}})
+            r += 1
+            continue
         if capped or not items:
             continue
         per_item = [collect(g, it["pt"], None)[0] for it in items]
         probs = [it["prob"] for it in items]
         ref = [x for p in per_item for x in p]
+        # independent of the `next` algorithm: every (type, value, capitalisation) of the Prince grammar exactly once
+        want = []
+        for pit in impl_next.product_enumeration(g):
+            want += independent_product(g, pit["pt"]) or []
+        if sorted(want) != sorted(ref):
+            from collections import Counter
+            cw, cr = Counter(want), Counter(ref)
+            vio.append({"sig": "C17:missing" if (cw - cr) else "C17:duplicated",
+                        "what": "unbounded wordlist is not the Prince language once each: missing %r, repeated %r"
+                                % (list((cw - cr).elements())[:3], list((cr - cw).elements())[:3]),
+                        "replay": {"ruleset": rs, "all_lower": lower, "n": None, "file": False}})
         rulesets.write_ruleset(rs, os.path.join(code, "Rules", name))
         refs[name] = (rs, lower, per_item, ref, probs)
         # in-process: the real wordlist loop with EVERY size 1 .. total+1 (capped)
